@@ -176,6 +176,24 @@ def run(ctx):
                 if dV.shape == (n, N, N):
                     lines.append(["basis", N, n, 1] + fbs(cf) + fbs(prev._reference) + fbs(w) + [fb(1e-10)] + fbs(dV))
                     keep.append((spec, el, prev, cf, N, n))
+    # directed: LARGE jumps from one asymptote to the other (and across the seam of the vibronic model a hair off its symmetry plane):
+    # the overlaps with the states continued from are tiny (1e-9 and below) there - of either sign before the fix, never negative after
+    for j in range(ctx.budget(6, 30)):
+        name = ["simple", "modelx", "vibronic"][j % 3]
+        spec = {"name": name, "kwargs": {}}
+        if name == "vibronic":
+            th = float(rng.choice([-1.0, 1.0]) * 10 ** rng.uniform(-11, -9))
+            pts = [[0.0, 0.0, float(x2), 0.0, th] for x2 in (-1.0, -2.8, -1.2, -2.5, -1.89 + 0.3, -1.89 - 0.3)]
+        else:
+            a_ = float(rng.uniform(4.0, 9.0)) if name == "simple" else float(rng.uniform(12.0, 16.0))
+            pts = [[-a_], [a_], [-a_ * 0.9], [a_ * 1.1], [-a_], [a_ * 0.95]]
+        ops = [(k, p_, (k - 1 if k else None), "model") for k, p_ in enumerate(pts)]
+        a = {"spec": spec, "ops": [list(o) for o in ops]}
+        ok, obs, req, text = oracle_script(a)
+        ctx.case(("large-jumps", name))
+        ctx.count("directed_large_jump_scripts")
+        if not ok:
+            ctx.oracle_fail("update-script:" + name, "script", a, obs, req, text)
     # directed: a smooth path on the built-in truncated (AdiabaticModel_) model through the stretch where LAPACK's native sign of an
     # eigenvector changes (x in [-6.2, -4.8] for Shin-Metiu): every point continued from the previous one
     for j in range(ctx.budget(2, 10)):
